@@ -51,6 +51,9 @@ CHECKS = {
  'C04': dict(level='exploration', tech='runtime monitor: subspace-membership oracle (solver solution at integration end points vs span of find_starting_conditions evaluated there), start-radius sweeps and family cross-checks of Love numbers, and a 40-digit Bessel reference for the z helper observed through the starting vectors',
              text='Randomised exploration over solid/liquid, static/dynamic cores, both starting-condition families, l=2..8, frequencies, soft lossy rigidities (both branches of z), start radii 1e-4..0.5 R; only converged solves are decisive.',
              note='Interior slices are not used for the subspace test (dense-output interpolation error ~1e-6 observed). Three open known findings (Takeuchi y6 cross-index, Takeuchi truncated phi/psi series, z Taylor powers), all in .pyx.', ref='4/C04'),
+ 'C05': dict(level='exploration', tech='runtime monitor: conservation checker between the solver output (-Im k), the real sensitivity/heating functions and quadrature over three refinement levels, plus a perturbation (functional-derivative) test of both kernels; a second-integrator noise probe decides which cases are decisive',
+             text='Randomised exploration over 1-4 solid layers (+ static-liquid core), Maxwell/Andrade/Burgers rigidities from the real rheology classes, l=2..4, frequencies 1e-7..1e-3, constant and linear profiles, >=70 slices per layer refined twice; the shell-summed radial heating profile is checked against the global rate; Im k <= 0 asserted on every passive body.',
+             note='The theorem holds up to first-order discretisation error, so the oracle is convergence under refinement (calibrated criteria in the evidence assumptions); cases whose sensitivity profile is dominated by dense-output interpolation noise are inconclusive.', ref='4/C05'),
 }
 NA = []
 def main():
